@@ -350,3 +350,104 @@ func runUpd(c map[string]any, ev map[string]any) error {
 	ev["disk"] = disk
 	return nil
 }
+
+// parseSub splits the payload of a List Users entry: count(2) { id(2) size(2) data }*.
+func parseSub(b []byte) map[int][]byte {
+	out := map[int][]byte{}
+	if len(b) < 2 {
+		return out
+	}
+	n := sim.BE(b[0:2])
+	p := b[2:]
+	for i := 0; i < n && len(p) >= 4; i++ {
+		id, sz := sim.BE(p[0:2]), sim.BE(p[2:4])
+		if len(p) < 4+sz {
+			break
+		}
+		out[id] = p[4 : 4+sz]
+		p = p[4+sz:]
+	}
+	return out
+}
+
+// runOpen (C16): an account editor "ed" (access c["racc"], bitmap c["rbytes"]) opens the account "x" (bitmap
+// c["bytes"] = ToBytes(S)) with Get User (352), lists the accounts (348) and - when it holds Modify User - saves
+// the account with exactly the bytes it received (353).  Recorded: greply / lreply / sreply (reply classes), gwire
+// (access field of the Get User reply), lwire (access field of x's entry in the List Users reply), saved, and the
+// account afterwards: mem (running account manager) and disk (freshly loaded one).
+func runOpen(c map[string]any, ev map[string]any) error {
+	bits, err := bytes8(c["bytes"])
+	if err != nil {
+		return err
+	}
+	rbits, err := bytes8(c["rbytes"])
+	if err != nil {
+		return err
+	}
+	ev["greply"], ev["lreply"], ev["sreply"], ev["saved"] = "none", "none", "none", false
+	ev["gwire"], ev["lwire"], ev["mem"], ev["disk"] = []int{}, []int{}, []int{}, []int{}
+	w, err := sim.NewWorld(sim.WorldOpts{Accounts: []sim.Acct{
+		{Login: "ed", Name: "Editor", Password: "ep"},
+		{Login: "x", Name: "X", Password: "xp"},
+	}})
+	if err != nil {
+		ev["greply"] = "noworld: " + err.Error()
+		return nil
+	}
+	defer w.Close()
+	if err := setAccess(w, "ed", rbits); err != nil {
+		return err
+	}
+	if err := setAccess(w, "x", bits); err != nil {
+		return err
+	}
+	ed := w.Dial("")
+	if rep, err := ed.Login(sim.LoginOpts{Login: "ed", Password: "ep", Name: "Editor"}); err != nil || rep.Err != 0 {
+		return fmt.Errorf("open: login: %v err=%d", err, rep.Err)
+	}
+	ed.Drain()
+	cls := func(rep sim.Tx, err error) string {
+		switch {
+		case err != nil:
+			return "closed"
+		case rep.Err != 0:
+			return "err"
+		}
+		return "ok"
+	}
+	rep, rerr := ed.Request(sim.TGetUser, sim.Fld(sim.FUserLogin, []byte("x")))
+	ev["greply"] = cls(rep, rerr)
+	var got []byte
+	if b, ok := rep.Get(sim.FUserAccess); ok && rerr == nil {
+		got = b
+		ev["gwire"] = sim.Ints(b)
+	}
+	lrep, lerr := ed.Request(sim.TListUsers)
+	ev["lreply"] = cls(lrep, lerr)
+	if lerr == nil {
+		for _, entry := range lrep.GetAll(sim.FData) {
+			f := parseSub(entry)
+			if string(sim.Obfuscate(f[sim.FUserLogin])) == "x" {
+				ev["lwire"] = sim.Ints(f[sim.FUserAccess])
+			}
+		}
+	}
+	if sim.BitSet(rbits, 17) && got != nil {
+		// save what was received, unchanged (password marker "keep")
+		srep, serr := ed.Request(sim.TSetUser, sim.Fld(sim.FUserLogin, sim.Obfuscate([]byte("x"))), sim.Fld(sim.FUserName, []byte("X")),
+			sim.Fld(sim.FUserPassword, []byte{0}), sim.Fld(sim.FUserAccess, got))
+		ev["sreply"] = cls(srep, serr)
+		ev["saved"] = true
+	}
+	if a := w.AM.Get("x"); a != nil {
+		ev["mem"] = sim.Ints(a.Access[:])
+	}
+	fresh, err := verifexport.NewYAMLAccountManager(filepath.Join(w.Config, "Users"))
+	if err != nil {
+		return fmt.Errorf("open: reload accounts: %w", err)
+	}
+	if a := fresh.Get("x"); a != nil {
+		ev["disk"] = sim.Ints(a.Access[:])
+	}
+	return nil
+}
